@@ -1126,13 +1126,14 @@ class StrategyBase(Node):
         # Adjust prices for bid/offer paid if needed
         if self._bidoffer_set:
             # sum over securities of the same name (held by several
-            # sub-strategies), like the positions above
+            # sub-strategies), like the positions above; the amount paid
+            # includes the multiplier, the price does not
             bidoffer = pd.DataFrame()
             for x in self.securities:
                 if x.name in bidoffer.columns:
-                    bidoffer[x.name] += x.bidoffers_paid
+                    bidoffer[x.name] += x.bidoffers_paid / x.multiplier
                 else:
-                    bidoffer[x.name] = x.bidoffers_paid
+                    bidoffer[x.name] = x.bidoffers_paid / x.multiplier
             prc += bidoffer.unstack() / trades
 
         res = pd.DataFrame({"price": prc, "quantity": trades}).dropna(subset=["quantity"])
